@@ -3,6 +3,7 @@
 set -e
 cd "$(dirname "$0")"
 export CARGO_NET_OFFLINE=true
-(cd lean && lake build A2lVerif a2lmodel 2>&1 | tail -5)
+MODS=$(python3 -c "import json; p=json.load(open('tools/props.json')); print(' '.join(sorted({m for v in p.values() for m in v['lean_modules']})))")
+(cd lean && lake build A2lVerif a2lmodel $MODS 2>&1 | grep -v "^info\|depends on axioms\|propext\|Classical.choice\|Quot.sound" | tail -5)
 (cd harness && cargo build --offline 2>&1 | tail -3)
 echo setup done
